@@ -205,6 +205,7 @@ def c04_rf18(run):
     run.min_instances('RF29', 3)
     rf_proto.rf16j(run)
     rf_fold.rf38(run)
+    rf_fold.rf41(run)
 
 
 def c16_rf16(run):
@@ -319,6 +320,7 @@ def c02_rf26(run):
     rf_fold.rf38b(run)
     rf_fold.rf39(run)
     rf_fold.rf40(run)
+    rf_fold.rf41(run)
 
 
 PLAN = {
